@@ -45,7 +45,12 @@ def compute_poc(force, method="deviation_from_baseline", ret_details=False):
         if mfunc.identifier == method:
             if "clip_approach" in mfunc.preprocessing:
                 force = compute_preproc_clip_approach(force)
-            data = mfunc(force, ret_details=ret_details)
+            if force.size < 2 or force.max() == force.min():
+                # degenerate data (e.g. constant or monotonically
+                # decreasing force): there is nothing to estimate
+                data = (np.nan, {}) if ret_details else np.nan
+            else:
+                data = mfunc(force, ret_details=ret_details)
             if ret_details:
                 cp, details = data
                 details["method"] = method
@@ -54,7 +59,8 @@ def compute_poc(force, method="deviation_from_baseline", ret_details=False):
             break
     else:
         raise ValueError(f"Undefined POC method '{method}'!")
-    if np.isnan(cp):
+    if np.isnan(cp) or not 0 <= cp < max(force.size, 1):
+        # no estimate, or an estimate outside of the data
         cp = force.size // 2
     if ret_details:
         return cp, details
@@ -410,6 +416,12 @@ def poc_frechet_direct_path(force, ret_details=False):
     contact point. For shorter baselines, the contact point will
     be closer to the point of maximum indentation.
     """
+    if force.size < 2 or force.max() == force.min():
+        # There is no path from the baseline to the maximum indentation.
+        if ret_details:
+            return np.nan, {}
+        else:
+            return np.nan
     x = np.linspace(0, 1, len(force), endpoint=True)
     y = (force - force.min()) / (force.max() - force.min())
 
